@@ -341,6 +341,21 @@ pub fn condition_register_bit_to_flag(condition_register_bit: usize) -> Result<S
     })
 }
 
+/// Record forms (Rc = 1, capstone's `update_cr0`) set CR0 lt/gt/eq from the result
+/// compared with zero as a signed number. XER[SO] is not modelled by this lifter,
+/// so cr0-so is left as it is.
+fn record_form(block: &mut Block, update_cr0: bool, result: Scalar) -> Result<(), Error> {
+    if update_cr0 {
+        set_condition_register_signed(
+            block,
+            scalar("cr0", 32),
+            result.into(),
+            expr_const(0, 32),
+        )?;
+    }
+    Ok(())
+}
+
 pub fn rlwinm_(
     control_flow_graph: &mut ControlFlowGraph,
     ra: Scalar,
@@ -348,6 +363,7 @@ pub fn rlwinm_(
     sh: u64,
     mb: u64,
     me: u64,
+    update_cr0: bool,
 ) -> Result<(), Error> {
     /*
     - If the MB value is less than the ME value + 1, then the mask bits between
@@ -371,7 +387,8 @@ pub fn rlwinm_(
 
         let value = Expr::rotl(rs, expr_const(sh, 32))?;
         let value = Expr::and(value, expr_const(mask, 32))?;
-        block.assign(ra, value);
+        block.assign(ra.clone(), value);
+        record_form(block, update_cr0, ra)?;
 
         block.index()
     };
@@ -397,7 +414,8 @@ pub fn add(
         let block = control_flow_graph.new_block()?;
 
         let src = Expression::add(lhs, rhs)?;
-        block.assign(dst, src);
+        block.assign(dst.clone(), src);
+        record_form(block, detail.update_cr0, dst)?;
 
         block.index()
     };
@@ -485,7 +503,8 @@ pub fn addze(
             scalar("carry", 1),
             Expression::cmpltu(sum.clone().into(), lhs)?,
         );
-        block.assign(dst, sum.into());
+        block.assign(dst.clone(), sum.into());
+        record_form(block, detail.update_cr0, dst)?;
 
         block.index()
     };
@@ -1049,7 +1068,7 @@ pub fn rlwinm(
     let mb = detail.operands[3].imm() as u64;
     let me = detail.operands[4].imm() as u64;
 
-    rlwinm_(control_flow_graph, ra, rs, sh, mb, me)
+    rlwinm_(control_flow_graph, ra, rs, sh, mb, me, detail.update_cr0)
 }
 
 pub fn slwi(
@@ -1062,7 +1081,7 @@ pub fn slwi(
     let rs = get_register(detail.operands[1].reg())?.expression();
     let sh = detail.operands[2].imm() as u64;
 
-    rlwinm_(control_flow_graph, ra, rs, sh, 0, 31 - sh)
+    rlwinm_(control_flow_graph, ra, rs, sh, 0, 31 - sh, detail.update_cr0)
 }
 
 pub fn srawi(
@@ -1091,7 +1110,8 @@ pub fn srawi(
             Expression::cmpneq(shifted_out, expr_const(0, 32))?,
         )?;
         block.assign(scalar("carry", 1), carry);
-        block.assign(dst, Expression::sra(lhs, rhs)?);
+        block.assign(dst.clone(), Expression::sra(lhs, rhs)?);
+        record_form(block, detail.update_cr0, dst)?;
 
         block.index()
     };
@@ -1225,7 +1245,8 @@ pub fn subf(
             Expression::add(Expression::xor(lhs, expr_const(0xffff_ffff, 32))?, rhs)?,
             expr_const(1, 32),
         )?;
-        block.assign(dst, src);
+        block.assign(dst.clone(), src);
+        record_form(block, detail.update_cr0, dst)?;
 
         block.index()
     };
